@@ -7,15 +7,17 @@
    order, starting from the empty sketch `s0`; `none` would be a C++ exception.
 
    NOT formalised (said in the CLAIM note as well): "subset-sum estimates are unbiased over the sampling randomness"
-   as a statement about whole histories.  `vo_one_step_unbiased` is the one-step identity it follows from. -/
-import DSProofs.Lemmas.VarOptStep
-import DSProofs.Lemmas.VarOptResult
-import DSProofs.Lemmas.VarOptSerde
+   as a statement about whole histories.  `vo_one_step_unbiased` is the one-step identity it follows from.
+
+   Where the CURRENT code violates a statement the file has `…_full` (the statement), `…_full_false` (concrete witness,
+   replayed on the real headers by corpus/regress/C16/*.txt on every run) and `…_partial` (what does hold):
+   `vo_union_wellformed_*` and `vo_serde_update_*`.  Two further open findings exist only in floating point
+   (get_result() throwing on an absolute 1e-10 tolerance, update() throwing because total_wt_r_/r_ rounds above an
+   H weight) and therefore have no counterpart over `Rat`; they are demonstrated by the Float instance + oracle. -/
+import DSProofs.Lemmas.VarOptWitness
 namespace DS.VarOpt
 open DS
 
-/-- sample tunables for the non-vacuity examples (the theorems hold for every value) -/
-def exT : Tunables := ⟨2147483646, 3, 3, 2, 1, 1, 10000000000, []⟩
 def exItems : List (Int × Rat) := [(1, 10), (2, 10), (3, 10), (4, 7)]
 def exDraws : Draws Rat := ⟨[1/2, 1/4], [1, 5]⟩
 
@@ -245,43 +247,9 @@ example : ∃ (M : List E) (W : Rat) (c : Nat), 2 ≤ M.length ∧ c = M.length 
     intro e he; simp at he; rcases he with rfl | rfl <;> norm_num, by norm_num [nextDouble, exDraws, Num.ofFrac]⟩
 
 -- ====================================================================================== union
-
-/-- the sketch `sk` is what some stream `items` of positive weights (any k, any fill, any draws) leaves behind -/
-def FromStream (sk : Sk Rat) (items : List (Int × Rat)) : Prop :=
-  ∃ (T : Tunables) (k rf : Nat) (s0 : Sk Rat) (ds ds' : Draws Rat),
-    Sk.new T k rf false = some s0 ∧ (∀ p ∈ items, 0 < p.2) ∧ feed false items s0 ds = some (sk, ds')
-
-theorem FromStream.inv {sk : Sk Rat} {items : List (Int × Rat)} (h : FromStream sk items) :
-    ∃ ins L, Inv sk ins L ∧ sumW ins = totalW items ∧ sk.n = items.length := by
-  obtain ⟨T, k, rf, s0, ds, ds', h0, hpos, hf⟩ := h
-  obtain ⟨hinv0, _, _, _⟩ := new_inv T k rf false s0 h0
-  obtain ⟨s, ds2, L, hf', hinv, _, _, _, _⟩ := feed_spec false items s0 [] [] ds hinv0 hpos (by simp)
-  rw [hf] at hf'
-  injection hf' with hf'; injection hf' with h1 h2
-  subst h1
-  exact ⟨_, L, hinv, by rw [List.append_nil, sumW_entriesOf], by rw [hinv.n_eq]; simp [length_entriesOf]⟩
-
-theorem unionAll_spec (inputs : List (Sk Rat × List (Int × Rat))) (hin : ∀ p ∈ inputs, FromStream p.1 p.2) :
-    ∀ (u : Un Rat) (insG LG : List E) (tot : Rat) (cnt : Nat) (ds : Draws Rat), UInv u insG LG tot cnt →
-    ∃ u' ds' insG' LG', unionAll u (inputs.map (·.1)) ds = some (u', ds') ∧
-      UInv u' insG' LG' (tot + sumR (inputs.map (fun p => totalW p.2))) (cnt + (inputs.map (fun p => p.2.length)).sum) ∧
-      u'.maxK = u.maxK := by
-  induction inputs with
-  | nil =>
-    intro u insG LG tot cnt ds hu
-    exact ⟨u, ds, insG, LG, rfl, by simpa [sumR] using hu, rfl⟩
-  | cons p t ih =>
-    intro u insG LG tot cnt ds hu
-    obtain ⟨ins, L, hinv, htot, hn⟩ := (hin p (by simp)).inv
-    obtain ⟨u1, ds1, insG1, LG1, hup, hu1, hk1⟩ := unUpdate_spec u insG LG tot cnt hu p.1 ins L hinv ds
-    obtain ⟨u2, ds2, insG2, LG2, hall, hu2, hk2⟩ := ih (fun q hq => hin q (by simp [hq])) u1 insG1 LG1 _ _ ds1 hu1
-    refine ⟨u2, ds2, insG2, LG2, ?_, ?_, by rw [hk2, hk1]⟩
-    · simp only [List.map_cons, unionAll, hup, hall]
-    · have e1 : tot + sumW ins + sumR (t.map (fun p => totalW p.2)) = tot + sumR ((p :: t).map (fun p => totalW p.2)) := by
-        simp [sumR, htot]; ring
-      have e2 : cnt + p.1.n + (t.map (fun p => p.2.length)).sum = cnt + ((p :: t).map (fun p => p.2.length)).sum := by
-        simp [hn]; omega
-      rw [← e1, ← e2]; exact hu2
+-- `FromStream sk items` (DSProofs/Lemmas/VarOptWitness.lean): `sk` is what some stream `items` of positive weights
+-- (any tunables, any k, any resize factor, any draws) leaves behind, starting from the empty sketch.
+-- `unionAll u sks ds` (Lemmas/VarOptUnion.lean): `update` with each sketch of the list, in order.
 
 /-- **vo_union.** Merging any list of sketches (each the result of any stream with any k) into a union of any
     `max_k`, with any draws: no `update` throws; the union's `n` is the sum of the inputs' `n`; and whenever
@@ -311,22 +279,6 @@ theorem vo_union (T : Tunables) (maxK : Nat) (u0 : Un Rat) (hu0 : Un.new T maxK 
   have := hok.kLe; rw [hk, hk0] at this
   omega
 
--- concrete inputs for the examples and the witnesses below
-def wDs : Draws Rat := ⟨[1/2, 1/2, 1/2, 1/2, 1/2, 1/2], [1, 1, 1, 1, 1, 1]⟩
-def wNew (k : Nat) : Sk Rat := ((Sk.new exT k 0 false : Option (Sk Rat)).getD
-  ⟨1, 0, [], [], [], 0, false, 0, false, 0, 0⟩)
-def wItemsA : List (Int × Rat) := [(1, 10), (2, 10), (3, 10)]
-def wItemsB : List (Int × Rat) := [(4, 1)]
-/-- k = 2 sketch after three items of weight 10: h = 0, r = 2, tau = 15 -/
-def wA : Sk Rat := ((feed false wItemsA (wNew 2) wDs).getD (wNew 2, wDs)).1
-/-- k = 10 sketch holding one item of weight 1 (exact mode) -/
-def wB : Sk Rat := ((feed false wItemsB (wNew 10) wDs).getD (wNew 10, wDs)).1
-
-theorem wA_fromStream : FromStream wA wItemsA :=
-  ⟨exT, 2, 0, wNew 2, wDs, ((feed false wItemsA (wNew 2) wDs).getD (wNew 2, wDs)).2, rfl, by decide, rfl⟩
-theorem wB_fromStream : FromStream wB wItemsB :=
-  ⟨exT, 10, 0, wNew 10, wDs, ((feed false wItemsB (wNew 10) wDs).getD (wNew 10, wDs)).2, rfl, by decide, rfl⟩
-
 example : ∃ u0, Un.new (α := Rat) exT 10 = some u0 ∧ (∀ p ∈ [(wA, wItemsA), (wB, wItemsB)], FromStream p.1 p.2) :=
   ⟨_, rfl, by
     intro p hp
@@ -342,10 +294,6 @@ def vo_union_wellformed_full : Prop :=
     ∀ (inputs : List (Sk Rat × List (Int × Rat))), (∀ p ∈ inputs, FromStream p.1 p.2) →
       ∀ (ds : Draws Rat) (u : Un Rat) (ds' : Draws Rat), unionAll u0 (inputs.map (·.1)) ds = some (u, ds') →
         ∀ (ds2 : Draws Rat) (res : Sk Rat) (ds3 : Draws Rat), u.getResult T ds2 = some (res, ds3) → WellFormed res
-
-def wU0 : Un Rat := ((Un.new exT 10 : Option (Un Rat)).getD ⟨0, 0, 0, 0, wNew 1⟩)
-def wU : Un Rat := ((unionAll wU0 [wA, wB] wDs).getD (wU0, wDs)).1
-def wRes : Sk Rat := ((wU.getResult exT wDs).getD (wNew 1, wDs)).1
 
 /-- **The current code violates it** (open finding `union-result-sample-lighter-than-tau`; the same coercer also
     skips re-heapifying, finding `union-result-not-heap-ordered`).  Witness: k = 2 sketch after three items of weight
@@ -406,8 +354,6 @@ def vo_serde_update_full : Prop :=
     ∀ (T : Tunables) (sk2 : Sk Rat), serdeRoundTrip T sk = some sk2 →
       ∀ (x : Int) (w : Rat) (ds : Draws Rat), 0 < w → (update sk2 x w false ds).isSome = true
 
-def wA2 : Sk Rat := ((serdeRoundTrip exT wA).getD wA)
-
 /-- **The current code violates it** (open finding `update-throws-after-deserialize`): `deserialize` constructs an
     estimation-mode sketch with `m_ = 1`, and every update path then fails an entry check.  Witness: the k = 2 sketch
     after three items of weight 10, through bytes, then `update(4, 3)`.  Replayed by corpus/regress/C16/w1-*.txt. -/
@@ -423,10 +369,10 @@ theorem vo_serde_update_full_false : ¬ vo_serde_update_full := by
     revert this
     decide +kernel
 
-/-- **vo_serde_queries_partial.** What does hold: serialize → deserialize of a (non-gadget) sketch succeeds and the
+/-- **vo_serde_update_partial.** What does hold: serialize → deserialize of a (non-gadget) sketch succeeds and the
     copy answers every query identically (n, k, number of samples, iterator output, subset sums); and a sketch that is
     still in warm-up keeps accepting updates. -/
-theorem vo_serde_queries_partial (sk : Sk Rat) (items : List (Int × Rat)) (hfs : FromStream sk items) (T : Tunables)
+theorem vo_serde_update_partial (sk : Sk Rat) (items : List (Int × Rat)) (hfs : FromStream sk items) (T : Tunables)
     (hk : sk.k ≤ T.maxK) (hne : sk.isEmpty = false) :
     ∃ sk2, serdeRoundTrip T sk = some sk2 ∧ sk2.n = sk.n ∧ sk2.k = sk.k ∧ sk2.numSamples = sk.numSamples ∧
       sk2.samples = sk.samples ∧ (∀ B p, estimateSubsetSum B sk2 p = estimateSubsetSum B sk p) ∧
